@@ -284,7 +284,7 @@ def check_loops(ctx):
     # the assembling functions pass one set of labels / register to both halves and concatenate in order
     for fname, starts, ends, order in (("_build_cmds_loop", "_loop_get_entry_commands", "_loop_get_exit_commands", ["pre_commands", "call:_loop_get_entry_commands", "body_commands", "call:_loop_get_exit_commands"]),
                                        ("_build_cmds_loop_until", "_loop_until_get_entry_commands", "_loop_until_get_exit_commands",
-                                        ["pre_commands", "call:_loop_until_get_entry_commands", "body_commands", "call:_loop_until_get_break_commands", "cleanup_commands", "call:_loop_until_get_exit_commands"])):
+                                        ["pre_commands", "call:_loop_until_get_entry_commands", "body_commands", "call:_loop_until_get_break_commands", "local:[]|call:subrt_pop_all_pending_commands", "call:_loop_until_get_exit_commands"])):
         fn = b.methods.get(fname)
         if fn is None:
             raise AnalysisError(f"{fname} not found")
@@ -307,12 +307,18 @@ def check_loops(ctx):
                 t = E.concat_terms(n.value)
                 if len(t) >= 4:
                     cat = []
+                    params_ = set(A.param_names(fn))
+                    multi = A.assigned_names(fn)
                     for term in t:
                         v = d.get(term)
                         if isinstance(v, ast.Call) and A.is_self_attr(v.func):
                             cat.append("call:" + v.func.attr)
-                        else:
+                        elif term in params_:
                             cat.append(term)
+                        else:
+                            # a local bound on several paths: named by what it can hold
+                            kinds = sorted({("call:" + x.func.attr) if isinstance(x, ast.Call) and A.is_self_attr(x.func) else A.norm(x) for x in multi.get(term, []) if x is not None})
+                            cat.append("local:" + "|".join(kinds))
         ctx.check("C05.L", f"{fname}:concatenation-order", cat == order, f"{fname} concatenates {cat}; expected {order}", b.loc(fn), sample={"assembler": fname, "order": cat})
         # the loop is dropped (early return) only when that cannot change behaviour: empty body, or a counted loop whose emitted
         # form runs zero times (start == stop).  The predicate of every early return is evaluated on a grid of bounds and bodies.
@@ -360,18 +366,34 @@ def check_loops(ctx):
         ok = len(calls) == 1
         if ok:
             kw = A.kwargs_of(calls[0])
-            ok = A.norm(kw.get("pre_commands", ast.Constant(value=0))) == "pre_commands" and A.norm(kw.get("body_commands", ast.Constant(value=0))) == "body_commands" and \
-                A.norm(kw.get("loop_register", ast.Constant(value=0))) in ("loop_register", "loop_register_result")
+            pre, body, lr = kw.get("pre_commands"), kw.get("body_commands"), kw.get("loop_register")
+            ok = isinstance(pre, ast.Name) and isinstance(body, ast.Name) and isinstance(lr, ast.Name) and pre.id != body.id
+            if ok:
+                # the body's commands come from the last pop(s) before the assembler is called; the pre-commands are another, earlier variable
+                assigns = [(st.lineno, st.targets[0].id, st.value) for st in A.body_nodes(fn) if isinstance(st, ast.Assign) and isinstance(st.targets[0], ast.Name) and st.lineno < calls[0].lineno]
+                is_pop = lambda v: isinstance(v, ast.Call) and A.is_self_attr(v.func, "subrt_pop_all_pending_commands")
+                popped = {name_ for _, name_, v in assigns if is_pop(v)}
+                body_defs = [(ln, v) for ln, name_, v in assigns if name_ == body.id]
+                pre_defs = [(ln, v) for ln, name_, v in assigns if name_ == pre.id]
+                last_body = max(body_defs, key=lambda t: t[0]) if body_defs else None
+                ok = last_body is not None and (is_pop(last_body[1]) or any(isinstance(x, ast.Name) and x.id in popped for x in ast.walk(last_body[1]))) \
+                    and all((ln < last_body[0] or not is_pop(v)) and not A.contains_name(v, body.id) for ln, v in pre_defs)
         ctx.check("C05.L", f"{fname}:own-commands-and-register", ok, f"{fname} does not pass its own pre/body commands and loop register to {callee}", b.loc(fn), trivial=True)
     # the body of a callback loop sees the register the loop counts in
     lb = b.methods["_build_cmds_loop_body"]
     bc = [c for c in A.calls_in(lb) if isinstance(c.func, ast.Name) and c.func.id == "body"]
-    ok = len(bc) == 1 and len(bc[0].args) == 2 and A.norm(bc[0].args[1]) == "RegFuture(connection=self._connection,reg=loop_register)"
+    lb_calls = [c for c in A.calls_in(lb) if A.is_self_attr(c.func, "_build_cmds_loop")]
+    lb_reg = A.norm(A.kwargs_of(lb_calls[0]).get("loop_register", ast.Constant(value=0))) if lb_calls else "?"
+    ok = len(bc) == 1 and len(bc[0].args) == 2 and A.norm(bc[0].args[1]) == f"RegFuture(connection=self._connection,reg={lb_reg})"
     ctx.check("C05.L", "_build_cmds_loop_body:body-gets-the-loop-register", ok, "the loop body callback does not receive a RegFuture of the loop register", b.loc(lb))
     # foreach: the element future is indexed by the loop register
     fe = b.methods["_foreach_context_enter"]
     rets = [A.norm(r.value) for r in A.returns(fe)]
-    ok = sorted(rets) == sorted(["(loop_register,array.get_future_index(loop_register))", "array.get_future_index(loop_register)"])
+    fe_reg = [k for k, v in A.single_defs(fe).items() if isinstance(v, ast.Call) and A.call_name(v) == "get_inactive_register"]
+    lrn = fe_reg[0] if len(fe_reg) == 1 else "?"
+    ok = sorted(rets) == sorted([f"({lrn},array.get_future_index({lrn}))", f"array.get_future_index({lrn})"])
+    # and that register is the one stored for the exit half
+    ok = ok and any(isinstance(n, ast.Assign) and isinstance(n.targets[0], ast.Subscript) and A.is_self_attr(n.targets[0].value, "_pre_context_commands") and A.contains_name(n.value, lrn) for n in ast.walk(fe))
     ctx.check("C05.L", "_foreach_context_enter:element-indexed-by-loop-register", ok, f"foreach returns {rets}; the element must be array[loop_register]", b.loc(fe))
     fx = b.methods["_foreach_context_exit"]
     calls = [c for c in A.calls_in(fx) if A.is_self_attr(c.func, "_build_cmds_loop")]
@@ -430,50 +452,76 @@ def check_at_most(ctx):
 def check_future_ops(ctx):
     repo = ctx.repo
     fm = repo.module("netqasm.sdk.futures")
-    for cname, selfreg in (("Future", "tmp_register"), ("RegFuture", "self.reg")):
+    for cname in ("Future", "RegFuture"):
         c = fm.classes.get(cname)
         fn = c.methods.get("add") if c else None
         if fn is None:
             raise AnalysisError(f"{cname}.add not found")
         ctx.fn(f"{cname}.add")
         d = A.single_defs(fn)
-        ao = d.get("add_operands")
-        ok_ops = isinstance(ao, ast.List) and [A.norm(e) for e in ao.elts] == [selfreg, selfreg, "other_operand"]
+        po, pm = A.param_names(fn)[1:3]
+        first = {}
+        for st in fn.body:
+            if isinstance(st, ast.Assign) and isinstance(st.targets[0], ast.Name):
+                first.setdefault(st.targets[0].id, st.value)
+        # roles are read off the one emitted command: ICmd(instruction=<I>, operands=<O>), O = [<own register> x2, <other operand>]
         ics = E.icmds_in(fn)
-        ok_i = len(ics) == 1 and ics[0].instr == "add_instr" and A.norm(A.kwargs_of(ics[0].node).get("operands", ast.Constant(value=0))) == "add_operands"
+        ok_i = len(ics) == 1 and isinstance(A.kwargs_of(ics[0].node).get("operands"), ast.Name) and isinstance(A.kwargs_of(ics[0].node).get("instruction"), ast.Name)
+        O = A.kwargs_of(ics[0].node)["operands"].id if ok_i else None
+        I_ = A.kwargs_of(ics[0].node)["instruction"].id if ok_i else None
+        ao = d.get(O) if O else None
+        elts = [A.norm(e) for e in ao.elts] if isinstance(ao, ast.List) else []
+        own = elts[0] if elts else None
+        if cname == "Future":
+            own_ok = own is not None and isinstance(first.get(own), ast.Call) and A.call_name(first[own]) == "get_inactive_register"
+        else:
+            own_ok = own == "self.reg"
+        ok_ops = len(elts) == 3 and elts[1] == own and own_ok and elts[2] != own
+        other_operand = elts[2] if len(elts) == 3 else None
         # ADD without modulus, ADDM with the modulus appended
-        sel = [n for n in ast.walk(fn) if isinstance(n, ast.If) and A.norm(n.test) == "modisNone"]
+        sel = [n for n in ast.walk(fn) if isinstance(n, ast.If) and A.norm(n.test) == f"{pm}isNone"]
         ok_sel = False
-        if sel:
-            t = [A.norm(s.value) for s in sel[0].body if isinstance(s, ast.Assign)]
-            f_ = [A.norm(s.value) for s in sel[0].orelse if isinstance(s, ast.Assign)]
-            app = [A.norm(c) for s in sel[0].orelse for c in ast.walk(s) if isinstance(c, ast.Call) and A.norm(c.func) == "add_operands.append"]
-            ok_sel = t == ["GenericInstr.ADD"] and f_ == ["GenericInstr.ADDM"] and app == ["add_operands.append(mod)"]
+        if sel and ok_i:
+            t = [(A.norm(s_.targets[0]), A.norm(s_.value)) for s_ in sel[0].body if isinstance(s_, ast.Assign)]
+            f_ = [(A.norm(s_.targets[0]), A.norm(s_.value)) for s_ in sel[0].orelse if isinstance(s_, ast.Assign)]
+            app = [A.norm(c_) for s_ in sel[0].orelse for c_ in ast.walk(s_) if isinstance(c_, ast.Call) and A.norm(c_.func) == f"{O}.append"]
+            ok_sel = t == [(I_, "GenericInstr.ADD")] and f_ == [(I_, "GenericInstr.ADDM")] and app == [f"{O}.append({pm})"]
         cat = None
         for n in A.body_nodes(fn):
-            if isinstance(n, ast.Assign) and A.norm(n.targets[0]) == "commands" and isinstance(n.value, ast.BinOp):
+            if isinstance(n, ast.Assign) and isinstance(n.value, ast.BinOp) and ok_i and any(x is ics[0].node for x in ast.walk(n.value)):
                 t = E.concat_terms(n.value)
                 cat = [t[0], t[-1]]
-        ok_cat = cat == ["load_commands", "store_commands"]
+        ok_cat = cat is not None and all(isinstance(first.get(x), (ast.Call, ast.List)) for x in cat) and cat[0] != cat[1]
         ok_ls = True
-        if cname == "Future":
-            first = {}
-            for st in fn.body:
-                if isinstance(st, ast.Assign) and isinstance(st.targets[0], ast.Name):
-                    first.setdefault(st.targets[0].id, st.value)
-            ok_ls = A.norm(first.get("load_commands", ast.Constant(value=0))) == "self.get_load_commands(tmp_register)" and A.norm(first.get("store_commands", ast.Constant(value=0))) == "self._get_store_commands(tmp_register)"
+        if cname == "Future" and cat:
+            ok_ls = A.norm(first.get(cat[0], ast.Constant(value=0))) == f"self.get_load_commands({own})" and A.norm(first.get(cat[1], ast.Constant(value=0))) == f"self._get_store_commands({own})"
         ctx.check("C05.A", f"{cname}.add", ok_ops and ok_i and ok_sel and ok_cat and ok_ls,
-                  f"{cname}.add: operands {src(ao) if ao is not None else None}, ADD/ADDM selection ok={ok_sel}, order {cat}; expected load -> add into the same register [{selfreg}, {selfreg}, other] (+mod for addm) -> store back",
+                  f"{cname}.add: operands {src(ao) if ao is not None else None}, ADD/ADDM selection ok={ok_sel}, order {cat}; expected load -> add into the same register [own, own, other] (+mod for addm) -> store back",
                   c.loc(fn), sample={"class": cname, "operands": src(ao) if ao is not None else None})
-        # the other Future operand is loaded into (and only into) its own temporary
-        oth = [n for n in ast.walk(fn) if isinstance(n, ast.If) and A.norm(n.test) == "isinstance(other,Future)"]
-        ok = bool(oth) and any(A.norm(c) == "other.get_load_commands(other_tmp_register)" for c in ast.walk(oth[0]) if isinstance(c, ast.Call))
+        # the other Future operand is loaded into (and only into) its own temporary, which is the operand added
+        oth = [n for n in ast.walk(fn) if isinstance(n, ast.If) and A.norm(n.test) == f"isinstance({po},Future)"]
+        ok = False
+        if oth and cat:
+            loads = [c_ for c_ in ast.walk(oth[0]) if isinstance(c_, ast.Call) and A.norm(c_.func) == f"{po}.get_load_commands" and len(c_.args) == 1 and isinstance(c_.args[0], ast.Name)]
+            if len(loads) == 1:
+                t2 = loads[0].args[0].id
+                defs2 = {A.norm(x.targets[0]): A.norm(x.value) for x in oth[0].body if isinstance(x, ast.Assign)}
+                # t2 and the added operand are the same fresh register
+                fresh = [k for k, v in defs2.items() if v.endswith("get_inactive_register(activate=True)")]
+                same = len(fresh) == 1 and (t2 == fresh[0] or defs2.get(t2) == fresh[0]) and (other_operand == fresh[0] or defs2.get(other_operand) == fresh[0])
+                into_load = any(isinstance(x, ast.AugAssign) and A.norm(x.target) == cat[0] and any(y is loads[0] for y in ast.walk(x.value)) for x in oth[0].body)
+                ok = same and into_load
         ctx.check("C05.A", f"{cname}.add:other-future-loaded", ok, f"{cname}.add does not load a Future `other` into its temporary before adding", c.loc(fn), trivial=True)
     # access commands: load/store [register, @address[index]]
     fut = fm.classes["Future"]
     ac = fut.methods.get("_get_access_commands")
     ics = E.icmds_in(ac) if ac else []
-    ok = len(ics) >= 1 and ics[-1].instr == "instruction" and ics[-1].ops() == ["register", "address_entry"]
+    pi_, pr_ = (A.param_names(ac)[1:3] if ac else ("?", "?"))
+    ok = len(ics) >= 1 and ics[-1].instr == pi_ and len(ics[-1].ops()) == 2 and ics[-1].ops()[0] == pr_
+    if ok:
+        # second operand: the entry @<own address>[<index>] parsed from this future's address
+        ad = A.single_defs(ac).get(ics[-1].ops()[1])
+        ok = isinstance(ad, ast.Call) and A.call_name(ad) == "parse_address" and "self._address" in A.norm(ad)
     gl, gs = fut.methods.get("get_load_commands"), fut.methods.get("_get_store_commands")
     ok = ok and gl is not None and gs is not None and "GenericInstr.LOAD" in A.norm(A.returns(gl)[0].value) and "GenericInstr.STORE" in A.norm(A.returns(gs)[0].value)
     ctx.check("C05.A", "Future:load/store-commands", ok, "Future load/store commands are not `load|store <register> <own array entry>`", fut.loc(ac) if ac else "")
@@ -481,18 +529,41 @@ def check_future_ops(ctx):
     b = repo.get_class(B, "Builder")
     mfn = b.methods.get("_build_cmds_measure")
     ctx.fn("Builder._build_cmds_measure")
+    md = A.single_defs(mfn)
+    pf = "future"
+    out = [k for k, v in md.items() if isinstance(v, ast.Call) and A.call_name(v) == "get_new_meas_outcome_register"]
+    qr = [k for k, v in md.items() if isinstance(v, ast.Call) and A.call_name(v) == "_get_qubit_register"]
+    outr, qreg = (out[0] if len(out) == 1 else "?"), (qr[0] if len(qr) == 1 else "?")
     ics = [e for e in E.icmds_in(mfn) if e.instr in ("MEAS", "MEAS_BASIS")]
-    ok = len(ics) == 4 and all(e.ops()[:2] == ["qubit_reg", "outcome_reg"] for e in ics)
+    ok = len(ics) == 4 and all(e.ops()[:2] == [qreg, outr] for e in ics)
     stores = [c for c in A.calls_in(mfn) if A.call_name(c) == "_get_store_commands"]
-    ok = ok and len(stores) == 1 and A.norm(stores[0].args[0]) == "outcome_reg" and A.norm(stores[0].func.value) == "future"
-    regs = [n for n in A.body_nodes(mfn) if isinstance(n, ast.Assign) and A.norm(n.targets[0]) == "future.reg"]
-    ok = ok and len(regs) == 1 and A.norm(regs[0].value) == "outcome_reg"
+    ok = ok and len(stores) == 1 and A.norm(stores[0].args[0]) == outr and A.norm(stores[0].func.value) == pf
+    regs = [n for n in A.body_nodes(mfn) if isinstance(n, ast.Assign) and A.norm(n.targets[0]) == f"{pf}.reg"]
+    ok = ok and len(regs) == 1 and A.norm(regs[0].value) == outr
     ctx.check("C05.M", "_build_cmds_measure:outcome-register-is-the-one-stored", ok, "the register that receives the measurement outcome is not the one stored into the Future / bound to the RegFuture", b.loc(mfn), sample={"meas_sites": len(ics)})
+    # order: [measurement] + free + store; the terms are named by what they hold
     cat = None
+    multi = A.assigned_names(mfn)
+
+    def holds(name_):
+        vals = [v for v in multi.get(name_, []) if v is not None]
+        kinds = set()
+        for v in vals:
+            if isinstance(v, ast.Call) and A.call_name(v) == "ICmd":
+                kinds.add(A.norm(A.kwargs_of(v).get("instruction", ast.Constant(value=0))).split(".")[-1])
+            elif isinstance(v, ast.List) and v.elts and all(isinstance(x, ast.Call) and A.call_name(x) == "ICmd" for x in v.elts):
+                kinds.update(A.norm(A.kwargs_of(x).get("instruction", ast.Constant(value=0))).split(".")[-1] for x in v.elts)
+            elif isinstance(v, ast.Call) and A.call_name(v) == "_get_store_commands":
+                kinds.add("store")
+        return "|".join(sorted(kinds))
+
     for n in A.body_nodes(mfn):
-        if isinstance(n, ast.Assign) and A.norm(n.targets[0]) == "commands" and isinstance(n.value, ast.BinOp):
-            cat = E.concat_terms(n.value)
-    ctx.check("C05.M", "_build_cmds_measure:measure-then-free-then-store", cat == ["[meas_command]", "free_commands", "outcome_commands"], f"measurement commands are ordered {cat}", b.loc(mfn), trivial=True)
+        if isinstance(n, ast.Assign) and isinstance(n.value, ast.BinOp) and len(E.concat_terms(n.value)) == 3:
+            cat = []
+            for term in E.concat_terms(n.value):
+                name_ = term.strip("[]")
+                cat.append(holds(name_))
+    ctx.check("C05.M", "_build_cmds_measure:measure-then-free-then-store", cat == ["MEAS|MEAS_BASIS", "QFREE", "store"], f"measurement commands are ordered {cat}", b.loc(mfn), trivial=True)
 
 
 def check_flush(ctx):
